@@ -536,7 +536,7 @@ def project(events, run_index=0):
             ev("Result", **_project_result(e, sc, rb, cons_ev, mode, D, lb, ub, pid_of, xR, RY, RS, consf, events))
         elif t == "Crash":
             fr = e.get("frame") or ""
-            ev("Crash", type=e["type"], frame=fr, injected=bool(e["type"] in ("InjectedTargetError", "InjectedTargetError2", "InjectedStopIteration", "InjectedLinAlgError")),
+            ev("Crash", type=e["type"], frame=fr, injected=bool(e["type"] in ("InjectedTargetError", "InjectedTargetError2", "InjectedStopIteration", "InjectedLinAlgError", "InjectedTypeError")),
                ncalls=e["ncalls"], fc=e["fc"],
                loggedfinite=_logged_finite(e.get("final")),
                nlog=int(e["final"]["Xn"] + 1) if e.get("final") else -1)
